@@ -688,7 +688,9 @@ class FnAnalysis:
             self.ev(e.slice, env)
             # stored field access: fld[name] / self[name]
             if self.is_field_obj(e.value, env) and not isinstance(e.slice, ast.Slice):
-                return AV(o=["STORED"], e=["STORED"])
+                # fld[name] is one stored array; fld[[n1, n2]] / fld[names] a list of them
+                single = isinstance(e.slice, (ast.Constant, ast.Subscript)) or (isinstance(e.slice, ast.Name) and e.slice.id in ("name", "field", "key"))
+                return AV(o=["STORED"], e=["STORED"], arr=single)
             if base.dictlike:
                 return FRESH
             if isinstance(e.slice, ast.Slice) and base.o and not base.arr and all(l.startswith("F:") and l[2:] in self.an.list_fields for l in base.o):
@@ -971,3 +973,13 @@ class FnAnalysis:
                         v, _ = bound[r[2:]]
                         self.summ.store.setdefault(attr, set()).update(v.all())
         return AV(o=out_o, e=out_o, arr=bool(out_o))
+
+
+def analyzed(prog):
+    """The (fixpoint of the) alias analysis of a program, computed once per Program object and shared by all rules that consult it."""
+    an = getattr(prog, "_alias_analysis", None)
+    if an is None:
+        an = Analyzer(prog)
+        an.run()
+        prog._alias_analysis = an
+    return an
